@@ -345,11 +345,17 @@ def check(cfg, argv):
     coqchk_note = None
     if tier == "thorough" and proof_ok and not replay and os.environ.get("VERIF_NO_COQCHK") != "1":
         with Lock():
-            try:
-                rc, outc = sh(["coqchk", "-silent", "-o", "-Q", "theories", "Verif", "-Q", "proofs", "VerifProofs", "-Q", "gen", "VerifGen",
-                               "-Q", "props", "VerifProps", "VerifProps.%s" % prop], cwd=COQ, timeout=3000)
-            except Exception as e:  # timeout
-                rc, outc = 1, "coqchk did not finish: %s" % e
+            rc, outc = 1, ""
+            for attempt in (1, 2):
+                # (re)build inside the same lock hold: another property's check may have rebuilt a shared file
+                coq_make(cfg.get("props_target", ["props/%s.vo" % prop]))
+                try:
+                    rc, outc = sh(["coqchk", "-silent", "-o", "-Q", "theories", "Verif", "-Q", "proofs", "VerifProofs", "-Q", "gen", "VerifGen",
+                                   "-Q", "props", "VerifProps", "VerifProps.%s" % prop], cwd=COQ, timeout=3000)
+                except Exception as e:  # timeout
+                    rc, outc = 1, "coqchk did not finish: %s" % e
+                if rc == 0:
+                    break
         open(os.path.join(d, "coqchk.log"), "w").write(outc)
         m = re.search(r"\* Axioms:\s*(.*?)\n\s*\n", outc, re.S)
         ax = " ".join(m.group(1).split()) if m else "?"
